@@ -1,3 +1,6 @@
+import collections
+import copy
+
 from typedpy.commons import wrap_val
 from typedpy.structures import (
     Field,
@@ -19,6 +22,22 @@ class _JSONSchemaDraft4ReuseMeta(FieldMeta):
             fields = [validate_and_get_field(it) for it in item]
             return cls(fields)  # pylint: disable=E1120, E1123
         return cls([validate_and_get_field(item)])  # pylint: disable=E1120, E1123
+
+
+def _private_copy(instance, value):
+    """
+    AllOf and OneOf keep the value as it was given (each option converts it in its own way, and the given
+    value is the one that every re-validation - copy, clone, deserialization - accepts again), but never the
+    caller's own mutable object.
+    """
+    if getattr(instance, "_trust_supplied_values", False):
+        return value
+    if isinstance(value, (list, dict, set, collections.deque, Structure)):
+        try:
+            return copy.deepcopy(value)
+        except Exception:  # pylint: disable=broad-except
+            return value
+    return value
 
 
 def _str_for_multioption_field(instance):
@@ -84,12 +103,7 @@ class AllOf(MultiFieldWrapper, Field, metaclass=_JSONSchemaDraft4ReuseMeta):
         for field in self.get_fields():
             setattr(field, "_name", self._name)
             field.__set__(_scratch_instance(instance), value)
-        if self.get_fields() and not getattr(instance, "_trust_supplied_values", False):
-            # like AnyOf: the (first) option stores its own validated copy on the real instance,
-            # so the caller's object is never retained
-            self.get_fields()[0].__set__(instance, value)
-            value = instance.__dict__[self._name]
-        super().__set__(instance, value)
+        super().__set__(instance, _private_copy(instance, value))
 
     def __str__(self):
         return _str_for_multioption_field(self)
@@ -193,13 +207,11 @@ class OneOf(MultiFieldWrapper, Field, metaclass=_JSONSchemaDraft4ReuseMeta):
 
     def __set__(self, instance, value):
         matched = 0
-        matched_field = None
         for field in self.get_fields():
             setattr(field, "_name", self._name)
             try:
                 field.__set__(_scratch_instance(instance), value)
                 matched += 1
-                matched_field = field
             except TypeError:
                 pass
             except ValueError:
@@ -216,10 +228,7 @@ class OneOf(MultiFieldWrapper, Field, metaclass=_JSONSchemaDraft4ReuseMeta):
             raise ValueError(
                 f"{prefix}: Got {wrap_val(value)}; Matched more than one field option"
             )
-        # like AnyOf: the matched option stores its own validated copy on the real instance,
-        # so the caller's object is never retained
-        matched_field.__set__(instance, value)
-        super().__set__(instance, instance.__dict__[self._name])
+        super().__set__(instance, _private_copy(instance, value))
 
     def __str__(self):
         return _str_for_multioption_field(self)
